@@ -4,6 +4,8 @@ import (
 	"fmt"
 	"go/ast"
 	"go/types"
+	"os"
+	"sort"
 	"strings"
 
 	"golang.org/x/tools/go/ssa"
@@ -249,6 +251,7 @@ func (x *Exec) samePackage(a, b *ssa.Function) bool {
 // panicking outcome.
 func (x *Exec) opaqueCall(s *State, f *Frame, cc *CallCtx, callee Value, mayPanic bool, setResult func(Value)) []*State {
 	x.externalSafety(s, f, cc)
+	x.havocCalleeMods(s, f, cc, callee)
 	var res Value
 	sig := cc.Common.Signature()
 	rt := sig.Results()
@@ -324,6 +327,38 @@ func (x *Exec) opaqueCall(s *State, f *Frame, cc *CallCtx, callee Value, mayPani
 	fr.Idx++
 	out = append(out, s)
 	return out
+}
+
+// havocCalleeMods gives an opaque call to a function whose body is in the
+// program a sound frame: every heap component its body (transitively) may
+// store to is havocked. Library functions outside FrameScope keep the assumed
+// "modifies nothing the contracts mention" frame.
+func (x *Exec) havocCalleeMods(s *State, f *Frame, cc *CallCtx, callee Value) {
+	if x.FrameScope == nil || cc.Common.IsInvoke() {
+		return
+	}
+	fv, ok := callee.(*FuncVal)
+	if !ok || len(fv.Fn.Blocks) == 0 || !x.FrameScope(fv.Fn) {
+		return
+	}
+	ms := &modSet{Heap: map[string]bool{}, Ghost: map[string]bool{}}
+	x.scanMods(fv.Fn, fv.Fn.Blocks, nil, ms, 0, map[*ssa.Function]bool{fv.Fn: true})
+	var comps []string
+	for comp := range ms.Heap {
+		comps = append(comps, comp)
+	}
+	sort.Strings(comps)
+	if debugOn {
+		fmt.Fprintf(os.Stderr, "havoc at opaque call %s: %v allcells=%v\n", cc.Name, comps, ms.AllCells)
+	}
+	for _, comp := range comps {
+		x.havocPrefix(s, comp)
+	}
+	if ms.AllCells {
+		for c := range s.Cells {
+			s.Cells[c] = s.freshValue("call.cell."+c.Name, c.Typ)
+		}
+	}
 }
 
 // GoexitCalls enables the Goexit outcome for opaque panicking calls.
